@@ -128,14 +128,6 @@ func (s *Fn) base(v ssa.Value) {
 			s.addGlobal(le(t, konst(hi)))
 		}
 	}
-	switch x := v.(type) {
-	case *ssa.Call:
-		s.callFacts(x, func(i int) Lin { return term(v) }, -1)
-	case *ssa.Extract:
-		if c, ok := x.Tuple.(*ssa.Call); ok {
-			s.callFacts(c, func(i int) Lin { return term(v) }, x.Index)
-		}
-	}
 }
 
 // lenTermFacts registers facts for an opaque length term of value x.
@@ -148,12 +140,6 @@ func (s *Fn) lenBase(x ssa.Value) Lin {
 	s.seen[k] = true
 	s.addGlobal(le(konst(0), t))
 	switch c := x.(type) {
-	case *ssa.Call:
-		s.callFacts(c, func(i int) Lin { return t }, -1)
-	case *ssa.Extract:
-		if cc, ok := c.Tuple.(*ssa.Call); ok {
-			s.callFacts(cc, func(i int) Lin { return t }, c.Index)
-		}
 	case *ssa.UnOp:
 		if c.Op == token.MUL {
 			if a, ok := c.X.(*ssa.Alloc); ok {
@@ -166,37 +152,40 @@ func (s *Fn) lenBase(x ssa.Value) Lin {
 	return t
 }
 
-// callFacts adds unconditional postconditions for the result (index res, or -1
-// for a single result) of call c, whose result term is given by ret.
-func (s *Fn) callFacts(c *ssa.Call, ret func(i int) Lin, res int) {
+// callFacts returns the postconditions for the result (index res, or -1 for a
+// single result) of call c, whose result term is given by ret. They hold only
+// where the call has returned: factsAt adds them at the call (or its Extract),
+// so they are available exactly at the points the instruction dominates.
+func (s *Fn) callFacts(c *ssa.Call, ret func(i int) Lin, res int) (out []Lin) {
+	add := func(f Lin) { out = append(out, f) }
 	a := c.Call.Args
 	n := calleeName(c)
 	r := ret(res)
 	switch n {
 	case "bytes.Index", "strings.Index":
-		s.addGlobal(le(konst(-1), r))
-		s.addGlobal(le(r.add(s.lenOf(a[1]), 1), s.lenOf(a[0])))
+		add(le(konst(-1), r))
+		add(le(r.add(s.lenOf(a[1]), 1), s.lenOf(a[0])))
 	case "bytes.IndexByte", "strings.IndexRune", "strings.IndexAny", "strings.IndexByte", "bytes.IndexRune", "bytes.IndexAny":
-		s.addGlobal(le(konst(-1), r))
-		s.addGlobal(lt(r, s.lenOf(a[0])))
+		add(le(konst(-1), r))
+		add(lt(r, s.lenOf(a[0])))
 	case "bytes.LastIndex", "strings.LastIndex":
-		s.addGlobal(le(konst(-1), r))
-		s.addGlobal(le(r.add(s.lenOf(a[1]), 1), s.lenOf(a[0])))
+		add(le(konst(-1), r))
+		add(le(r.add(s.lenOf(a[1]), 1), s.lenOf(a[0])))
 	case "bytes.LastIndexByte", "strings.LastIndexByte", "bytes.LastIndexAny", "strings.LastIndexAny", "bytes.IndexFunc", "bytes.LastIndexFunc", "strings.IndexFunc", "strings.LastIndexFunc":
-		s.addGlobal(le(konst(-1), r))
-		s.addGlobal(lt(r, s.lenOf(a[0])))
+		add(le(konst(-1), r))
+		add(lt(r, s.lenOf(a[0])))
 	case "io.ReadFull":
 		if res == 0 {
-			s.addGlobal(le(konst(0), r))
-			s.addGlobal(le(r, s.lenOf(a[1])))
+			add(le(konst(0), r))
+			add(le(r, s.lenOf(a[1])))
 		}
 	case "strings.TrimLeft", "bytes.TrimSpace", "bytes.Trim", "strings.TrimSpace", "bytes.TrimLeft", "strings.ToLower":
 		if n != "strings.ToLower" {
-			s.addGlobal(le(r, s.lenOf(a[0])))
+			add(le(r, s.lenOf(a[0])))
 		}
 	case "bytes.Cut":
 		if res == 0 || res == 1 {
-			s.addGlobal(le(r, s.lenOf(a[0])))
+			add(le(r, s.lenOf(a[0])))
 		}
 	}
 	f := c.Call.StaticCallee()
@@ -207,10 +196,11 @@ func (s *Fn) callFacts(c *ssa.Call, ret func(i int) Lin, res int) {
 		env := s.callEnvAt(c, ret)
 		for _, cand := range sum.post {
 			if cand.ok && (cand.res == res || (res == -1 && cand.res == 0)) {
-				s.addGlobal(cand.mk(env))
+				add(cand.mk(env))
 			}
 		}
 	}
+	return
 }
 
 func (s *Fn) callEnvAt(c *ssa.Call, ret func(i int) Lin) callEnv {
@@ -457,6 +447,40 @@ func (s *Fn) edgeFacts(p, b *ssa.BasicBlock) (fs, dq []Lin) {
 // boundsOf returns the facts established by the successful execution of in.
 func (s *Fn) boundsOf(in ssa.Instruction) []Lin {
 	switch v := in.(type) {
+	case *ssa.Call:
+		if f, ok := s.callF[in]; ok {
+			return f
+		}
+		var out []Lin
+		switch {
+		case isInt(v.Type()):
+			t := s.canon(v)
+			out = s.callFacts(v, func(int) Lin { return t }, -1)
+		case isSliceOrStr(v.Type()):
+			t := s.lenOf(v)
+			out = s.callFacts(v, func(int) Lin { return t }, -1)
+		}
+		s.callF[in] = out
+		return out
+	case *ssa.Extract:
+		c, ok := v.Tuple.(*ssa.Call)
+		if !ok {
+			return nil
+		}
+		if f, ok := s.callF[in]; ok {
+			return f
+		}
+		var out []Lin
+		switch {
+		case isInt(v.Type()):
+			t := s.canon(v)
+			out = s.callFacts(c, func(int) Lin { return t }, v.Index)
+		case isSliceOrStr(v.Type()):
+			t := s.lenOf(v)
+			out = s.callFacts(c, func(int) Lin { return t }, v.Index)
+		}
+		s.callF[in] = out
+		return out
 	case *ssa.IndexAddr:
 		i, L := s.canon(v.Index), s.lenOfX(v.X)
 		return []Lin{le(konst(0), i), lt(i, L)}
@@ -883,7 +907,7 @@ func (s *Fn) houdini() {
 			}
 		}
 	}
-	for iter := 0; iter < 12; iter++ {
+	for { // greatest fixpoint: candidates are only dropped
 		s.inv = map[*ssa.BasicBlock][]Lin{}
 		for _, c := range cands {
 			if c.ok {
